@@ -5,6 +5,7 @@ from engine.asyncs import awaits, await_of_call
 from .common import (Table, client_dispatch_poll, reachable_local_fns, norm_path, guarded_by_variant, guarded_by_bool, cmp_facts, SWAP, result_of, sends_cancel_id, in_module)
 from .server_common import Server
 
+EXTRA_CONFIGS = ('default', 'tokio1', 'serde1', 'serde-transport')   # feature configurations re-analysed in the thorough tier
 META = {
     'level': 'other',
     'technique': 'static comparison-fact (dominating edge) rule for capacity; must-pass-through pairing of map removals with timer removals in both tables; guard arm/disarm dominator rules',
